@@ -57,6 +57,11 @@ def work(arg):
            'candidates': [], 'stats': None, 'error': None, 'path_samples': [], 'timeout': False,
            'unsupported_msgs': [], 'exceptions': 0, 'truncated': False}
     try:
+        import resource
+        try:
+            resource.setrlimit(resource.RLIMIT_AS, (8 << 30, 8 << 30))
+        except Exception:
+            pass
         from . import loader
         from .explorer import Explorer, solve
         from .env import SymEnv
@@ -114,7 +119,7 @@ def work(arg):
             signal.alarm(0)
         out['truncated'] = ex.truncated
         out['stats'] = ex.stats.as_dict()
-    except CaseTimeout:
+    except (CaseTimeout, MemoryError):
         out['timeout'] = True
     except BaseException as e:  # harness error
         out['error'] = '%s: %s\n%s' % (type(e).__name__, e, traceback.format_exc()[-1500:])
